@@ -109,7 +109,7 @@ SUPPORTED_KINDS = {"insert", "insert_cols", "ctas", "create_view", "select_into"
 
 GENERIC = [("where.in_subquery_comma_join", "KF-32")]
 # per-dialect blind spots: "<dialect>:<mechanism>" -> finding id (the mechanism is a risk tag of the AST, or kind:target / kind:source / kind:unsupported)
-DIALECT = {"clickhouse:where.subquery": "KF-14a", "clickhouse:from.mixed_comma_join_any": "KF-14a", "exasol:create_view:target": "KF-14b",
+DIALECT = {"clickhouse:where.subquery": "KF-14a", "clickhouse:update.where_subquery": "KF-14a", "clickhouse:having.subquery": "KF-14a", "clickhouse:from.mixed_comma_join_any": "KF-14a", "exasol:create_view:target": "KF-14b",
            "impala:ctas:unsupported": "KF-14c", "exasol:create_like:source": "KF-14d", "vertica:create_like:unsupported": "KF-14d",
            **{f"{d}:where.exists_setop_paren": "KF-14i" for d in ("bigquery", "databricks", "sparksql", "sqlite", "trino")}}
 
